@@ -114,7 +114,7 @@ def build_traces(rng, nconn, link="eth", nrich=0):
             ptr[c] += 1
         # frames that belong to no connection (UDP, ICMP, later fragments, truncated headers, ARP, ...) in between
         if nrich:
-            for f in traffic.noise(rng, nid, max(4, len(order) // 6)):
+            for f in traffic.noise(rng, nid, max(4, len(order) // 6)) + traffic.unreadable(rng, nid, 6):
                 traces[crate].insert(rng.randrange(len(traces[crate]) + 1), (-1, relink(f, link) if len(f) > 14 else f))
     return traces
 
@@ -154,11 +154,13 @@ def run(tier, v):
     n_traces = 6 if tier == "thorough" else 3
     configs = [(nw, bs) for nw in (range(1, 17) if tier == "thorough" else (1, 2, 3, 5, 8, 16)) for bs in ((1, 2, 4) if tier == "thorough" else (1, 4))]
     seq_lines, pool_lines, meta = [], [], []
+    link_of = {}
     for t in range(n_traces):
         traces = build_traces(rng, 6 + 3 * t, ("eth", "raw", "null")[t % 3], nrich=6 + 2 * t)     # one capture framing per trace
         for crate, tr in traces.items():
             frames = [f.hex() for _, f in tr]
             sid = len(seq_lines)
+            link_of[sid] = ("eth", "raw", "null")[t % 3]
             if crate == "tcp":
                 seq_lines.append({"id": sid, "mode": "tcp", "req": {"id": sid, "op": "frames", "frames": frames, "clock": [1700000000000] * len(frames)}})
             elif crate == "http":
@@ -304,8 +306,18 @@ def run(tier, v):
             r_["par"] = r_["par"][1:]
             return rows[:10] + [r_], "one result delivered by the pool is removed"
         v.binding.append(vlib.binding_demo("TV_C10", trace, mut, PID, workers=4, timeout=900, heap="4g"))
+    K = set(vlib.known_devs(PID))
+    LOOK = ("8.0.", "134.221.", "2001:db8:800:", "2001:db8:86dd:")
     for b in r2.lines.get("BAD", []):
         m, par = rows[b["id"]]
+        # recorded finding: in a capture WITHOUT link-layer header, a frame whose octets 12-13 read 08 00 / 86 dd (they are the first
+        # octets of the IPv4 source address, or octets 4-5 of the IPv6 one) is taken for an Ethernet frame by the packet parsers and by
+        # the dispatch hashes alike -- each reads garbage in its own way.  Only connections with such an address, only raw framing.
+        def lookalike(c):
+            return any(a.strip("'[] ").startswith(LOOK) for a in c.replace("|", ",").split(","))
+        if link_of.get(m["seq"]) == "raw" and all(lookalike(c) for c in b["conns"]) and "D10_raw_ethertype_lookalike" in K:
+            v.known_hit("D10_raw_ethertype_lookalike", "raw-IP capture, sender address beginning 08 00 / 86 dd at frame offset 12 (e.g. 8.0.x.y, 134.221.x.y): the frame is taken for Ethernet by the packet parser and by the dispatch hash, sequential and pool results both wrong and different")
+            continue
         v.violation({"crate": m["crate"], "path": "parallel front end (with_config + init_pool + analyze_pcap)" if m.get("front_end") else "WorkerPool", "workers": m["nw"], "batch": m["batch"], "connections_that_differ": b["conns"], "sequential_results": b["nseq"], "pool_results": b["npar"],
                      "sequential": [x for x in seq_res[m["seq"]] if x["conn"] in b["conns"]][:10], "pool": [x for x in par if x["conn"] in b["conns"]][:10]})
     return v.finish("model_checking", {
